@@ -21,9 +21,8 @@ EXTENDS Chain, Json, IOUtils
 
 TreesJ == JsonDeserialize(IOEnv.TREES)
 ToSet(s) == {s[i] : i \in 1..Len(s)}
-FixEff(e) == [creates |-> ToSet(e.creates), spends |-> ToSet(e.spends), fc |-> e.fc]
-FixTree(tr) == [tr EXCEPT !.eff = [b \in 1..tr.n |-> FixEff(tr.eff[b])]]
-TreesC == [i \in 1..Len(TreesJ) |-> FixTree(TreesJ[i])]
+\* the trees are used as deserialised (a constant TLC evaluates once)
+TreesC == TreesJ
 SubsC == {"s1", "s2", "s3"}
 
 Log == ndJsonDeserialize(IOEnv.TRACE)
@@ -42,7 +41,7 @@ TReset ==
     /\ blk' = [b \in 1..Trees[Ev.t].n |-> IF b = 1 THEN "supp" ELSE "none"]
     /\ sta' = [b \in 1..Trees[Ev.t].n |-> IF b = 1 THEN "full" ELSE "none"]
     /\ best' = <<1>> /\ mem' = 1 /\ pc' = Idle /\ ret' = "ok"
-    /\ led' = [utxo |-> Trees[Ev.t].eff[1].creates, fc |-> {}, exp |-> [h \in 0..Trees[Ev.t].maxH |-> <<>>]]
+    /\ led' = [utxo |-> ToSet(Trees[Ev.t].eff[1].creates), fc |-> {}, exp |-> [h \in 0..Trees[Ev.t].maxH |-> <<>>]]
     /\ dur' = [blk |-> blk', sta |-> sta', best |-> best', led |-> led']
     /\ subs' = [s \in Subs |-> 0]
     /\ notif' = 0 /\ seen' = {1}
